@@ -56,6 +56,19 @@ class CoopLock:
 
     def acquire(self, blocking=True, timeout=-1):
         s, me = self._me()
+        if s is not None and not s.aborting:
+            # `with a._lock, b._lock:` is ONE source line: without this the two acquisitions would be one
+            # indivisible step for the line tracer. A scheduling point is inserted in front of an acquisition
+            # iff no point has been passed since the same thread's previous acquisition returned.
+            if s.acquired_at.get(me) == s.npoints and not (self.reentrant and self.owner == me):
+                s.point(me, ("acquire", self.name))
+        try:
+            return self._acquire(s, me, blocking)
+        finally:
+            if s is not None:
+                s.acquired_at[me] = s.npoints
+
+    def _acquire(self, s, me, blocking):
         while True:
             if self.owner is None:
                 self.owner = me
@@ -149,6 +162,7 @@ class Sched:
         self.npoints = 0
         self.inv_fail = []
         self.lines = []
+        self.acquired_at = {}  # thread -> npoints when its last lock acquisition returned
 
     # -- identity ---------------------------------------------------------
     def current(self):
